@@ -53,6 +53,8 @@ impl FencedString {
                 }),
                 char_starts: Vec::new(),
             }
+        } else if start >= self.char_starts.len() {
+            Default::default()
         } else {
             let start_byte = self.char_starts[start];
             let end_byte = end.and_then(|e| self.char_starts.get(e)).cloned();
@@ -82,6 +84,8 @@ impl FencedString {
                 Some(end) if end < self.len() => &self.buffer[start..end],
                 _ => &self.buffer[start..],
             }
+        } else if start >= self.char_starts.len() {
+            ""
         } else {
             let start_byte = self.char_starts[start];
             let end_byte = end.and_then(|e| self.char_starts.get(e)).cloned();
@@ -98,6 +102,15 @@ impl FencedString {
             self.buffer.len()
         } else {
             self.char_starts.len()
+        }
+    }
+
+    /// index of the character that starts at byte offset `byte` (which must be a character boundary)
+    pub(crate) fn char_index_of_byte(&self, byte: usize) -> usize {
+        if self.char_starts.is_empty() {
+            byte
+        } else {
+            self.char_starts.partition_point(|s| *s < byte)
         }
     }
 
@@ -158,10 +171,8 @@ impl FencedString {
         if self.buffer.chars().all(char::is_lowercase) {
             None
         } else {
-            Some(Self {
-                buffer: self.buffer.to_lowercase(),
-                char_starts: self.char_starts.clone(),
-            })
+            // case mapping can change the byte length of a character, the offsets must be rebuilt
+            Some(Self::from_str(&self.buffer.to_lowercase()))
         }
     }
 
